@@ -613,6 +613,19 @@ class Materialiser:
                 return None, URefLeaf(-1, None)
             m = spec["m"]
             mt = ty["members"][m]
+            if "part" in spec:
+                o = self._obj(spec["part"][0])
+                pt, pnode, _, _ = node_at(schema, o.t, o.node, spec["part"][1])
+                if pt != mt or pnode is None:
+                    raise KeyError("part mismatch")
+                view = o.walk(spec["part"][1])
+                if o.bufid == self.holder_buf:
+                    self.aliased += 1
+                    if pnode.loc is None:
+                        pnode.loc = (o.bufid, int(view._offset))
+                    return view, URefLeaf(m, pnode)
+                self.foreign += 1
+                return view, URefLeaf(m, copy_node(schema, mt, pnode, False))
             if "obj" in spec:
                 o = self._obj(spec["obj"])
                 if o.t != mt:
